@@ -81,7 +81,7 @@ func compareTraits(got []string, want map[string]bool) (rule, detail string) {
 }
 
 func runParent(r *vk.Run) {
-	n := r.Pick(1200, 40000)
+	n := r.Pick(4000, 150000)
 	for i := 0; i < n; i++ {
 		if !r.Mine(i) {
 			continue
@@ -350,19 +350,21 @@ func parentResync(t *tc, m *parentpb.Model, ref parentRef) {
 	}
 }
 
-// parentShrinkRemove reduces a failing RemoveChildTrait call to its class: it replays every single trait name
-// of the call on a fresh model holding the same child and reports the class of the first one that fails.
+// parentShrinkRemove reduces a failing RemoveChildTrait call to its class: it replays the trait names of the call
+// one at a time on a fresh model holding the same child and reports the class (present / absent at that moment) of
+// the first single-name removal that fails.
 func parentShrinkRemove(pre map[string]bool, child string, names []string) string {
+	m := parentpb.NewModel(parentpb.WithInitialChildren(parentChildMsg(child, pre)))
+	cur := copySet(pre)
 	for _, n := range names {
-		m := parentpb.NewModel(parentpb.WithInitialChildren(parentChildMsg(child, pre)))
-		want := copySet(pre)
-		delete(want, n)
+		had := cur[n]
+		delete(cur, n)
 		var got *traits.Child
 		if p, _ := vk.Recover(func() { got = m.RemoveChildTrait(child, trait.Name(n)) }); p {
 			return "single-panics"
 		}
-		if rule, _ := compareTraits(traitNamesOf(got), want); rule != "" {
-			if pre[n] {
+		if rule, _ := compareTraits(traitNamesOf(got), cur); rule != "" {
+			if had {
 				return "present-trait"
 			}
 			return "absent-trait"
@@ -372,20 +374,21 @@ func parentShrinkRemove(pre map[string]bool, child string, names []string) strin
 }
 
 func parentShrinkAdd(pre map[string]bool, known bool, child string, names []string) string {
+	var opts []resource.Option
+	if known {
+		opts = append(opts, parentpb.WithInitialChildren(parentChildMsg(child, pre)))
+	}
+	m := parentpb.NewModel(opts...)
+	cur := copySet(pre)
 	for _, n := range names {
-		var opts []resource.Option
-		if known {
-			opts = append(opts, parentpb.WithInitialChildren(parentChildMsg(child, pre)))
-		}
-		m := parentpb.NewModel(opts...)
-		want := copySet(pre)
-		want[n] = true
+		had := cur[n]
+		cur[n] = true
 		var got *traits.Child
 		if p, _ := vk.Recover(func() { got, _ = m.AddChildTrait(child, trait.Name(n)) }); p {
 			return "single-panics"
 		}
-		if rule, _ := compareTraits(traitNamesOf(got), want); rule != "" {
-			if pre[n] {
+		if rule, _ := compareTraits(traitNamesOf(got), cur); rule != "" {
+			if had {
 				return "existing-trait"
 			}
 			return "new-trait"
